@@ -119,6 +119,13 @@ TENT* _ZN3tbb6detail2d117concurrent_vectorI4Elem12vp_allocatorIS3_EE19allocate_l
   return 0;
 }
 #endif
+#ifdef GTALW_CUT
+/* unit with vp_thr_gtalw: internal_grow<>(start,end) (the growth branch of the value-less grow_to_at_least) is cut; schedules in which
+   that thread would have to grow itself (it claimed a range) are outside this unit (covered by the gtal units): path dropped, no verdict */
+void _ZN3tbb6detail2d117concurrent_vectorI4Elem12vp_allocatorIS3_EE13internal_growIJEEENS1_15vector_iteratorIS6_S3_EEmmDpRKT_(struct S_class_tbb__detail__d1__vector_iterator* ret, VEC* v, u64 s, u64 e) {
+  __CPROVER_assume(0);
+}
+#endif
 /* no allocation failure is injected in these runs (and the units are compiled -fno-exceptions, where the real function aborts):
    any tbb::detail::r1::throw_exception (bad_alloc / out_of_range from the failure-tag checks) is a violation */
 void _ZN3tbb6detail2r115throw_exceptionENS0_2d012exception_idE(u32 id) {
@@ -192,6 +199,9 @@ static u64 arg_of(int kind) {
   if (kind == 0) return vp_nd_range(MIND, MAXD);
 #endif
   if (kind == 0) return vp_nd_range(0, MAXD);
+#ifdef GTALN
+  if (kind == 2) return GTALN;                 /* concrete per query */
+#endif
   if (kind == 2) return vp_nd_range(PRE > 1 ? PRE - 1 : 0, PRE + MAXD);
   return 0;
 }
@@ -240,6 +250,11 @@ int main(void) {
   CAT(TA, _start)(&vec, 0, arg[0], PROBE); CAT(TB, _start)(&vec, 1, arg[1], PROBE);
 #if NT == 3
   CAT(TC, _start)(&vec, 2, arg[2], PROBE);
+#endif
+#ifdef FIRSTA
+  /* wait-only scenarios: thread A's first slice reaches at least its size claim before any other thread starts */
+  VP_RUNT(TA, 0)
+  __CPROVER_assume(vp_claimed(&vec) == PRE + arg[0]);
 #endif
   for (int r = 0; r < ROUNDS; r++) {
     VP_RUNT(TA, 0) VP_RUNT(TB, 1)
